@@ -76,6 +76,7 @@ type Report struct {
 	SyncUses          map[string]int `json:"sync_uses"`
 	OnceRewritten     int            `json:"once_do_rewritten"`
 	LockRewritten     int            `json:"lock_rewritten"`
+	PoolRewritten     int            `json:"sync_pool_calls_rewritten"`
 	OsEnvUses         []string       `json:"os_env_pid_uses"`
 	GeneratorWraps    int            `json:"generator_wraps"`
 	GlobalsRegistered int            `json:"globals_registered"`
@@ -441,6 +442,23 @@ func (c *pkgCtx) exprRewrite(e ast.Expr) ast.Expr {
 			}
 		}
 	case *ast.CallExpr:
+		// pool.Get() / pool.Put(v) -> zzsimrt.PoolGet(&pool) / zzsimrt.PoolPut(&pool, v)
+		if sel, ok := x.Fun.(*ast.SelectorExpr); ok && (sel.Sel.Name == "Get" || sel.Sel.Name == "Put") {
+			if s, ok := c.info.Selections[sel]; ok && isSyncType(s.Recv(), "Pool") {
+				var recv ast.Expr = sel.X
+				if _, isPtr := s.Recv().(*types.Pointer); !isPtr {
+					recv = &ast.UnaryExpr{Op: token.AND, X: sel.X}
+				}
+				c.usedRT = true
+				report.PoolRewritten++
+				if sel.Sel.Name == "Get" && len(x.Args) == 0 {
+					return rtCall("PoolGet", recv)
+				}
+				if sel.Sel.Name == "Put" && len(x.Args) == 1 {
+					return rtCall("PoolPut", recv, x.Args[0])
+				}
+			}
+		}
 		// once.Do(f) -> zzsimrt.OnceDo(&once, f)
 		if sel, ok := x.Fun.(*ast.SelectorExpr); ok && sel.Sel.Name == "Do" && len(x.Args) == 1 {
 			if s, ok := c.info.Selections[sel]; ok && isSyncType(s.Recv(), "Once") {
